@@ -258,14 +258,16 @@ impl CompilerSession {
         &mut self, path: impl AsRef<Path>, text: String,
     ) -> Result<(), SourceLoadError> {
         let canonical = Self::path_identity(path.as_ref())?;
-        let input = self.files.get(&canonical).map(|entry| *entry).unwrap_or_else(|| {
-            let disk_text = std::fs::read_to_string(&canonical).ok();
-            #[cfg(feature = "verif-hooks")]
-            verif::pause("set_overlay:between-lookup-and-insert");
-            let input = SourceInput::new(self, canonical.clone(), disk_text, None);
-            self.files.insert(canonical, input);
-            input
-        });
+        // One atomic lookup-or-insert: an analysis on a snapshot may register the same path concurrently.
+        let input = match self.files.entry(canonical.clone()) {
+            | Entry::Occupied(entry) => *entry.get(),
+            | Entry::Vacant(entry) => {
+                let disk_text = std::fs::read_to_string(&canonical).ok();
+                #[cfg(feature = "verif-hooks")]
+                verif::pause("set_overlay:between-lookup-and-insert");
+                *entry.insert(SourceInput::new(self, canonical, disk_text, None))
+            }
+        };
         if input.overlay(self).as_ref() != Some(&text) {
             input.set_overlay(self).to(Some(text));
         }
